@@ -4,6 +4,10 @@ import itertools
 import wire
 from vlib import Case
 
+# every case of this module is a direct operator / builtin / codec application whose size the oracle computes:
+# a "capacity overflow" panic is never excused here
+MEMORY_EXCLUSION_IN_UNCONSTRAINED = False
+
 RULE = ("ops `op <Operator> <l> <r>` / `un <op> <v>`: the operator opcode is executed by the real VM on the two constants and by the Lean model; "
         "Spec.Ops (written from the statement) gives the demanded value / runtime error / unconstrained; cases = every operator x every ordered pair of "
         "operand kinds x boundary values (exhaustive over the boundary pools) + random 64-bit operands; non-trivial = the implementation returned a value or a runtime error")
